@@ -11,6 +11,9 @@
     c19.unhex     str                  -> hex | err:py:Error            (unhexlify_str, x)
     c19.hex       hex                  -> str                           (hexlify_str, b2x)
     c19.reply     method replyspec     -> result:<v> | raise:<Class>:<code> | err:py:IndexError
+    c19.seq       steps                -> a history on two proxies: step answers ';'-joined, then '#' ids of proxy 0 '#' ids of proxy 1
+                                          step := flush | <p>|in|<method>|<text> | <p>|out|<method>|<sat>|<emitted> | <p>|reply|<method>|<spec>
+                                                | <p>|chain|<kind>|<str>      (every answer is the stateless one; ids by Model.Rpc.idsSent per proxy)
     c19.ids       tokens               -> Model.Rpc.idsSent: the ids of the `_call` requests, ','-joined
 
     replyspec := none | nonjson=<i> | nonutf8=<i> | nonobj=<i> | obj:<err>:<res>
@@ -105,7 +108,7 @@ def transport {α} (ser : α → Res Bytes) (de : Model.Wire.Parser α) (show_ :
       | .extra _ _ => h ++ "|err:extra"
       | .err e => h ++ "|err:" ++ e.family
 
-def handle (op : String) (args : List String) : Option String :=
+def handle1 (op : String) (args : List String) : Option String :=
   match op, args with
   | "c19.amountIn", [_, text] => some <| match amountOfVal (parseAmountVal text) with
       | some r => Res.render (r.map toString)
@@ -133,6 +136,9 @@ def handle (op : String) (args : List String) : Option String :=
   | "c19.block", [b] => some <| match TxFmt.parseBlock? b with
       | some b => transport (fun b => Model.Wire.serBlock b) Model.Wire.deBlock TxFmt.showBlock b
       | none => badArgs
+  -- b2lx(block_hash) of something that is not bytes: TypeError re-raised by the wrapper (an argument check of
+  -- the typed methods, outside the property; the harness also checks that no request was sent)
+  | "c19.nonbytes", [_, _] => some "err:py:TypeError"
   | "c19.reply", [m, r] => some <| match parseReply? r with
       | some r => showOutcome (methodOutcome m r)
       | none => badArgs
@@ -140,5 +146,51 @@ def handle (op : String) (args : List String) : Option String :=
       | some reqs => joinWith "," ((idsSent PState.init reqs).map toString)
       | none => badArgs
   | _, _ => none
+
+
+
+/-- a placeholder fate for calls whose reply was a result -/
+def fateOk : Fate := .replied (.obj .null (some "x"))
+
+/-- one step of a history: its (stateless) answer and the `_call`s it makes on its proxy -/
+def seqStep (fields : List String) : Option (String × Nat × List Req) :=
+  match fields with
+  | [p, "in", m, text] => do
+      let p ← parseNat? p
+      let o ← handle1 "c19.amountIn" [m, text]
+      pure (o, p, [.call fateOk])
+  | [p, "out", m, sat, emitted] => do
+      let p ← parseNat? p
+      let k ← parseNat? sat
+      let o := match satoshisDenoted emitted.toList with
+        | some d => if d = (k : Int) then toString k else "inexact"
+        | none => "inexact"
+      let _ := m
+      pure (o, p, [.call fateOk])
+  | [p, "reply", m, spec] => do
+      let p ← parseNat? p
+      let r ← parseReply? spec
+      pure (showOutcome (methodOutcome m r), p, [.call (.replied r)])
+  | [p, "chain", k, s] => do
+      let p ← parseNat? p
+      let o ← handle1 "c19.chain" [k, s]
+      -- the second call is made only when the first one returned a hash
+      pure (o, p, match lx s with
+                   | .ok _ => [.call fateOk, .call (.replied (.obj (.dict (.int (-1))) (some "@null")))]
+                   | .error _ => [.call fateOk])
+  | _ => none
+
+def handle (op : String) (args : List String) : Option String :=
+  match op, args with
+  | "c19.seq", [steps] => some <|
+      match (splitList steps ';').mapM (fun st =>
+          if st = "flush" then some ("-", 0, []) else seqStep (st.splitOn "|")) with
+      | some rs =>
+          let outs := rs.map (·.1)
+          let reqsOf (p : Nat) : List Req := (rs.filter (fun r => r.2.1 = p)).flatMap (·.2.2)
+          let ids (p : Nat) : String := joinWith "," ((idsSent PState.init (reqsOf p)).map toString)
+          joinWith ";" outs ++ "#" ++ ids 0 ++ "#" ++ ids 1
+      | none => badArgs
+  | _, _ => handle1 op args
 
 end Driver.C19
